@@ -14,6 +14,7 @@ import (
 //   1  handed to its handler goroutine concurrently with Close (CONNECT already on the wire): every
 //      interleaving of the handler and of Close at synchronisation operations within the pre-emption bound
 //   2  absent
+//   4  attached through a SECOND listener before Close (Close closes the listeners one after the other)
 //   3  handed to its handler goroutine by the accept loop before Close, but the goroutine is first scheduled
 //      after Close has returned (a goroutine that has not run yet has no effects, so it is started here after
 //      Close): the extreme schedule of stage 1, which the bounded schedule search of stage 1 does not reach
@@ -21,6 +22,9 @@ import (
 func VerifC36Shutdown() {
 	s, hk := vNewServer(nil)
 	_ = s.AddListener(listeners.NewMockListener("t1", ":1"))
+	if vParam("STAGE", 0) == 4 {
+		_ = s.AddListener(listeners.NewMockListener("t2", ":2"))
+	}
 	ver1 := vByteIn("\x04\x05")
 	ver2 := vByteIn("\x04\x05")
 	stage := vParam("STAGE", 0)
@@ -55,6 +59,13 @@ func VerifC36Shutdown() {
 		}()
 	case 2:
 		h2done = true
+	case 4: // a second listener with its own attached client: closing one listener must not wait for the other's
+		vConnFeed(c2, connect2)
+		go func() {
+			_ = s.EstablishConnection("t2", c2)
+			h2done = true
+		}()
+		vDrain()
 	}
 	go func() {
 		_ = s.Close()
